@@ -344,20 +344,46 @@ func (p c10) abandoned(c *core.Ctx) {
 	}
 	complete := func(v *inv) {
 		if shape == 2 || shape == 3 {
-			close(v.gate)
+			func() {
+				defer func() { recover() }() // (the watchdog may have opened it)
+				close(v.gate)
+			}()
 		} else {
 			v.ch <- res(v)
 		}
 	}
 	var trace []string
+	blocked := false
 	step := func() mon.Obs {
+		// every call runs under the watchdog: if it does not return within 10 s all gates are opened, so that
+		// the call (and the case) can end; a call that needed that had blocked on a handler
+		var fired atomic.Bool
+		t := time.AfterFunc(10*time.Second, func() {
+			fired.Store(true)
+			for i := 0; i < numInvs(); i++ {
+				v := getInv(i)
+				func() {
+					defer func() { recover() }() // (a gate may be closed already)
+					close(v.gate)
+				}()
+			}
+		})
 		o := rr.Once(0)
+		t.Stop()
+		if fired.Load() {
+			blocked = true
+		}
 		trace = append(trace, "Next = "+o.String())
 		return o
 	}
 	fail := func(what string) {
 		c.Violate("abandoned command: "+what, map[string]any{"readers": []string{script}, "shape": c10Shapes[shape], "trace": trace})
 	}
+	defer func() {
+		if blocked && !c.Failed() {
+			fail("a call of Next blocked while a handler was running (it returned only after the 10 s watchdog released every handler)")
+		}
+	}()
 	waitInvs := func(n int) bool {
 		for w := 0; w < 20000; w++ {
 			if numInvs() >= n {
